@@ -42,8 +42,15 @@ Definition cur_dead (s : tstate) : bool :=
   | _ => false
   end.
 
+(* html5lib has two extra states, entered after "&" in data/RCDATA, that only call consumeEntity; S_tok handles
+   the reference inside the data/RCDATA state: while M_tok is in such a state S_tok still stands before the "&" *)
+Definition sst (m : tk) : tstate :=
+  match st m with entityDataState => dataState | characterReferenceInRcdata => rcdataState | x => x end.
+Definition sinp (m : tk) : str :=
+  match st m with entityDataState | characterReferenceInRcdata => 38 :: inp m | _ => inp m end.
+
 Definition R (m s : tk) : Prop :=
-  st s = st m /\ inp s = inp m /\ tmp s = tmp m /\ out s = flatr (out m) /\ cdata_ok s = cdata_ok m /\
+  st s = sst m /\ inp s = sinp m /\ tmp s = tmp m /\ out s = flatr (out m) /\ cdata_ok s = cdata_ok m /\
   bad m = false /\ bad s = false /\
   (if tstate_eqb (st m) bogusCommentState then cur s = CComment []
    else cur_dead (st m) = true \/ cur s = ncur (st m) (cur m)).
